@@ -20,14 +20,14 @@ func ruleC13(c *Ctx) {
 	vbh := c.Func(pVal, "ValidateBlockHeader")
 	sc := c.ScopeFunc(vbh)
 	c.RequireGuard(G, sc, "version", readsField(tBH, "Version"))
-	c.RequireGuard(G, sc, "height=parent+1", readsField(tBH, "Height"), isParam("parent"))
+	c.RequireGuard(G, sc, "height=parent+1", readsField(tBH, "Height"), paramN(1))
 	c.RequireGuard(G, sc, "parent hash", readsField(tBH, "PreviousBlockHash"), callsKey("(*protocol/bc/types.BlockHeader).Hash"))
 	c.RequireCall(R, sc, true, pVal+".checkBlockTime")
 	c.RequireCall(R, sc, true, pVal+".verifyBlockSignature")
 	c.RequireOrder("order", vbh, pVal+".checkBlockTime", pVal+".verifyBlockSignature")
 
 	cbt := c.ScopeFunc(c.Func(pVal, "checkBlockTime"))
-	c.RequireGuard(G, cbt, "timestamp ≥ parent+interval", readsField(tBH, "Timestamp"), isParam("parent"), readsField("", "BlockTimeInterval"))
+	c.RequireGuard(G, cbt, "timestamp ≥ parent+interval", readsField(tBH, "Timestamp"), paramN(1), readsField("", "BlockTimeInterval"))
 	c.RequireGuard(G, cbt, "timestamp ≤ now+offset", readsField(tBH, "Timestamp"), readsField("", "MaxTimeOffsetMs"), callsKey("time.Now"))
 
 	vbs := c.ScopeFunc(c.Func(pVal, "verifyBlockSignature"))
@@ -123,7 +123,7 @@ func ruleC13(c *Ctx) {
 		ok := false
 		for _, s := range callsTo(svb, false, pVal+".ValidateBlock") {
 			a := s.Common().Args
-			ok = len(a) == 4 && isParam("block")(a[0]) &&
+			ok = len(a) == 4 && paramN(1)(a[0]) &&
 				mentions(a[1], callsKey("(protocol/state.Store).GetBlockHeader"), 4, nil) &&
 				mentions(a[2], callsKey("(*protocol.Chain).PrevCheckpointByPrevHash"), 4, nil)
 		}
